@@ -106,7 +106,7 @@ func cursorContract(root store.Cursor) error {
 // optionally with surplus top-level end events, same-element prefix
 // rebinding, and a parser error at a drawn position.
 func genStream(t *rapid.T) []xmodel.Event {
-	ev := xmodel.Gen(t, xmodel.GenCfg{MaxDepth: 5, MaxKids: 4, MaxTop: 2, Forest: true, Wide: true, Undeclare: true, AllowBig: thorough(),
+	ev := xmodel.Gen(t, xmodel.GenCfg{MaxDepth: 5, MaxKids: 4, MaxTop: 2, Forest: true, Wide: true, Undeclare: true, AllowBig: thorough(), Stress: true,
 		XMLEverywhere: rapid.Bool().Draw(t, "xmlEverywhere")})
 	if rapid.IntRange(0, 3).Draw(t, "surplusEnds") == 0 {
 		// insert surplus end events where the depth is zero
